@@ -28,6 +28,22 @@ objs=[div(grad(f))*v*dx + inner(grad(grad(f)),grad(grad(v)))*dx]'''),
     corpus._c("c01_pyramid_prism_coef", '''
 m=mesh("prism"); V=space(m,"P",1); v=TestFunction(V); f=Coefficient(V)
 objs=[f*f*v*dx + dot(grad(f),grad(v))*dx]'''),
+    # gradients of Piola-mapped functions that are NOT invariant under transposition
+    corpus._c("c01_single_curl_n1curl_tri", '''
+m=mesh("triangle"); V=space(m,"N1curl",2); Q=space(m,"P",2); u=TrialFunction(V); q=TestFunction(Q); f=Coefficient(V); g=Coefficient(Q)
+objs=[curl(u)*q*dx, curl(f)*q*dx, curl(f)*g*dx, grad(u)[0,1]*q*dx]'''),
+    corpus._c("c01_single_curl_n1curl_tet", '''
+m=mesh("tetrahedron"); V=space(m,"N1curl",1); W=space(m,"P",1,shape=(3,)); u=TrialFunction(V); w=TestFunction(W); f=Coefficient(V)
+objs=[inner(curl(u),w)*dx, inner(grad(f)*f,w)*dx]'''),
+    corpus._c("c01_rt_gradient_entries_advection", '''
+m=mesh("triangle"); V=space(m,"RT",2); Q=space(m,"P",1); b=Coefficient(V); u=TrialFunction(Q); q=TestFunction(Q); w=TestFunction(V)
+objs=[grad(b)[1,0]*q*dx, dot(b,grad(u))*q*dx, inner(dot(grad(b),b),w)*dx]'''),
+    corpus._c("c01_vector_p2_gradient_entries", '''
+m=mesh("tetrahedron"); V=space(m,"P",2,shape=(3,)); Q=space(m,"P",1); u=TrialFunction(V); q=TestFunction(Q); f=Coefficient(V)
+objs=[grad(u)[0,2]*q*dx + grad(u)[2,1]*f[0]*q*dx, inner(dot(grad(f),f),f)*dx]'''),
+    corpus._c("c01_hessian_offdiagonal_tri", '''
+m=mesh("triangle"); V=space(m,"P",3); v=TestFunction(V); f=Coefficient(V); W=space(m,"P",2,shape=(2,)); g=Coefficient(W)
+objs=[grad(grad(f))[0,1]*v.dx(0)*dx + grad(grad(g))[1,0,1]*v*dx]'''),
 ]
 
 
